@@ -11,6 +11,7 @@ package c20
 import (
 	"fmt"
 	"strings"
+	"unicode/utf8"
 
 	"pgregory.net/rapid"
 )
@@ -30,6 +31,7 @@ const (
 	fFalse          = "C20-string-false-dropped"   // the string "false" as info string, title or alt is dropped (treated as falsy)
 	fCodeNL         = "C20-code-span-line-ending"  // a line ending inside a code span stays a line ending instead of a space
 	fTrimNBSP       = "C20-content-trim-nbsp"      // v-html content is trimmed with Unicode TrimSpace: &nbsp; at the edges is lost
+	fNUL            = "C20-nul-not-replaced"       // U+0000 in titles, image descriptions, info strings and HTML blocks is not replaced by U+FFFD
 	fAltLineBreak   = "C20-alt-line-break"         // a line ending inside an image description is dropped
 	fTightSeparator = "C20-tight-item-separator"   // no line break between a tight item's text and a following HTML block
 	maxDocLines     = 40
@@ -45,6 +47,7 @@ type gen struct {
 	refs     []string             // link reference definitions to append
 	nlabel   int
 	maxLines int  // 0 = maxDocLines
+	binary   bool // bytes that are not UTF-8 may be drawn (the case is then stored as raw bytes)
 	full     bool // ignore findings (used for the never-fails part, where only failure matters)
 }
 
@@ -95,7 +98,7 @@ var (
 	// a backslash that is not an escape stays a backslash on both sides
 	nonEscapes = []string{"\\a", "\\1", "\\é", "a\\b"}
 	mustaches  = []string{"{{ content }}", "{{ x }}", "{{x}}", "{{ 1 + 1 }}", "{{ level }}", "{{ href }}", "{{ code }}", "{{", "}}", "{{ content | upper }}", "{ { x } }", "{{ title }}", "{{ label }}", "{{{ x }}}", "{{ items[0].a }}", "{{ '<q>' }}"}
-	codeAtoms  = []string{"x", "a  b", "<q>", "&amp;", "&", "{{ x }}", "{{ content }}", "*a*", "\\*", "\\", "[l](u)", "a|b", "<!-- c -->", "'q'", "\"", "fn(a, b)", "é", "$1", "#", "-", "1.", ">", "</code>", "</pre>", "{{ code }}", "~~~", "}}"}
+	codeAtoms  = []string{"q\x00r", "\x01", "x", "a  b", "<q>", "&amp;", "&", "{{ x }}", "{{ content }}", "*a*", "\\*", "\\", "[l](u)", "a|b", "<!-- c -->", "'q'", "\"", "fn(a, b)", "é", "$1", "#", "-", "1.", ">", "</code>", "</pre>", "{{ code }}", "~~~", "}}"}
 	dests      = []string{"/p", "http://x.y/a?b=1&c=2", "<x y>", "/u(v)", "#frag", "/ä", "/a%20b", "/q?x={{x}}", "", "<>", "/a_b*c", "mailto:a@b.c", "//h/p", "/a\"b", "/a'b", "/%zz", "/a+b", "/#{{href}}", "javascript:alert(1)", "/a~b|c"}
 	destsEsc   = []string{"/a&amp;b", "/a\\*b", "/a\\)b", "/&copy;", "/a\\\\b", "<x\\>y>"}
 	titlesSafe = []string{"t", "two words", "ti&tle", "a<q", "{{ title }}", "é", "it's", "a > b", "say (x)", "{{ x }}", "x  y", "<q>bold</q>", "&", "a & q < c"}
@@ -109,7 +112,20 @@ var (
 
 // word draws a plain word that starts with a letter (so that no list marker, no digit run and no
 // special character is produced by accident).
-func (g *gen) word() string { return g.of("w", plainWords) }
+func (g *gen) word() string {
+	if g.chance("ctl", 5) {
+		w := g.of("ctlw", controlWords)
+		if !g.binary && !utf8.ValidString(w) {
+			return "a\x00b"
+		}
+		return w
+	}
+	return g.of("w", plainWords)
+}
+
+// controlWords: plain-word segments with U+0000 (CommonMark 2.3: replaced by U+FFFD in text), other
+// control characters and bytes that are not UTF-8.
+var controlWords = []string{"a\x00b", "\x00", "x\x00", "\x00\x00z", "x\x01y", "del\x7f", "\x1b[0m", "a\xffb", "\xc3", "z\xe2\x82", "\xf0\x9f"}
 
 // sep draws what stands between two inline items.
 func (g *gen) sep(oneLine bool) string {
@@ -190,6 +206,9 @@ func (g *gen) linkTitle() string {
 		t = g.of("title", titlesSafe)
 		if g.chance("titleFalse", 6) && g.allow(fFalse) {
 			t = "false"
+		}
+		if g.chance("titleNUL", 4) && g.allow(fNUL) {
+			t = "t\x00i"
 		}
 	}
 	switch g.n("tq", 0, 3) {
@@ -423,10 +442,14 @@ func (g *gen) item(depth int, oneLine bool) string {
 		return g.refLink(depth, oneLine)
 	case 11:
 		alt := g.word()
-		switch g.n("alt", 0, 9) {
+		switch g.n("alt", 0, 10) {
 		case 9:
 			if g.allow(fFalse) {
 				alt = "false"
+			}
+		case 10:
+			if g.allow(fNUL) {
+				alt = "a\x00lt"
 			}
 		case 8:
 			if g.allow(fAltCodeRaw) {
@@ -530,6 +553,9 @@ func (g *gen) fenced() []string {
 			info = g.of("infoE", infoEsc)
 		} else {
 			info = g.of("infoS", infoSafe)
+			if g.chance("infoNUL", 4) && g.allow(fNUL) {
+				info = "a\x00b"
+			}
 			if g.chance("infoFalse", 8) && g.allow(fFalse) {
 				info = g.of("infoF", []string{"false", "false x", "False", "falsey"})
 			}
@@ -797,6 +823,9 @@ func (g *gen) htmlBlock() []string {
 		{[]string{`<!X`, w + `>`}, true},                                                              // 4
 		{[]string{`<![CDATA[`, w, `]]>`}, true},                                                       // 5
 		{[]string{g.rawTag("pre") + `><code>` + w + `</code>`, `</pre> <q>tail ` + w + `</q>`}, true}, // 1
+	}
+	if g.chance("htmlNUL", 4) && g.allow(fNUL) {
+		return []string{`<div class="n">`, w + " \x00 " + w, `</div>`}
 	}
 	f := forms[g.n("hform", 0, len(forms)-1)]
 	if f.closure && !g.allow(fHTMLClosure) {
